@@ -150,11 +150,15 @@ def o_spend(case):
 
     tx = _mk_pycoin_tx(tx0, n_in, sp["spk"], amount)
     unclean = None
+    before = tx.as_bin(include_unspents=True)
     try:
         tx.check_solution(n_in, flags=flags)
         pverdict = V.OK
     except ScriptError:
         pverdict = V.FAIL
+    if tx.as_bin(include_unspents=True) != before:
+        raise Violation("spend:checking-an-input-modifies-the-transaction", "check_solution(%d) changed the transaction (%d inputs): a later check of "
+                        "another input, and the transaction id, then depend on what was checked before" % (n_in, len(tx0["ins"])))
     # any other exception escapes (check_solution is observed as "raising ScriptError or returning")
     labels = ["ref=" + verdict, "shape=" + case["shape"]] + _labels_for_ops(ctx)
     if any(ok for _ht, _z, ok in checker.sig_results):
